@@ -90,6 +90,17 @@ def run(ctx):
     try:
         for it_ in range(ctx.budget(160, 1500)):
             gd = P.gen_invertible_graph(rng, 300)
+            if it_ % 8 == 5:
+                # one directed generator (a cyclic shift of a marked necklace), or a shift and a swap: every unpruned layer of the single-generator graph
+                # has ONE state - "the beam stopped growing" is not "the search space is exhausted" on directed graphs
+                n_ = rng.randint(5, 9)
+                c_ = [0] * n_
+                c_[rng.randrange(n_)] = 1
+                if rng.random() < 0.4:
+                    c_[rng.randrange(n_)] = 2
+                gens_ = [[(i + 1) % n_ for i in range(n_)]] + ([[1, 0] + list(range(2, n_))] if rng.random() < 0.3 else [])
+                gd = {"kind": "perm", "gens": gens_, "central": c_}
+                ctx.count("single_directed_generator_graphs")
             cfgd = G.gen_config(rng, gd)
             graph = G.make_graph(gd, cfgd)
             ic = bool(graph.definition.generators_inverse_closed)
@@ -119,8 +130,29 @@ def run(ctx):
                 unpruned = False
                 ball_depth = rng.choice([None, 1, 2])
                 ctx.count("guided_narrow_searches")
+            if it_ % 8 == 5:
+                far_ = [v for v in verts if dist_from_start.get(tuple(gd["central"])) is not None]
+                advanced, hist, return_path, ball_depth, sk = False, 0, rng.random() < 0.5, None, rng.choice([None, "zero", "const"])
+                # a start state from which the central state is at distance >= 3 along the directed cycle
+                cands_ = []
+                for v_ in verts:
+                    _, dfs_ = G.ref_bfs(gd, [list(v_)])
+                    if dfs_.get(tuple(gd["central"]), 0) >= 3:
+                        cands_.append(list(v_))
+                if cands_:
+                    start = rng.choice(cands_)
+                    _, dist_from_start = G.ref_bfs(gd, [start])
+                orbit = len(dist_from_start)
+                width, steps = orbit * G.n_gens(gd) + 1, 3 * len(verts)
+                unpruned = True
             pred = None if sk is None else (Predictor(graph, "zero") if sk == "zero" else Predictor(graph, scorer(sk, gd, rng.randrange(100))))
             kw = dict(start_state=start, beam_mode="advanced" if advanced else "simple", beam_width=width, max_steps=steps, predictor=pred)
+            # the advanced mode can search for ANOTHER target than the central state (destination_state): everything the property says holds for that target
+            dest = None
+            if advanced and rng.random() < 0.35:
+                dest = list(rng.choice(verts)) if rng.random() < 0.85 else (P.outside_state(rng, gd, dist) or list(rng.choice(verts)))
+                kw["destination_state"] = dest
+                ctx.count("advanced_with_destination_state")
             if advanced:
                 kw["history_depth"] = hist
             else:
@@ -174,6 +206,13 @@ def run(ctx):
             sels = [(sc, idx[:width]) for sc, idx in rec]
             dropped = any(len(sc) > width for sc, _ in rec)
             d = dist_from_start.get(tuple(gd["central"]))
+            if dest is not None:
+                # oracle only (the model of the harness searches for the central state): the same claims with the destination as target
+                gd_t = dict(gd, central=dest)
+                msg, _cls = check_beam(gd_t, start, res, dist_from_start, unpruned, steps, ic, False, False)
+                if msg:
+                    ctx.violation("property_fails", f"advanced search with destination_state {dest}: " + msg, dict(case, destination=dest), True)
+                continue
             if foreign is not None:
                 # oracle only (the model builds its own ball): a refusal is fine, a reported success must still be a real walk to THIS graph's central state
                 if res[0] != "err":
@@ -226,6 +265,8 @@ def replay(ctx, obj):
         kw = dict(start_state=case["start"], beam_mode="advanced" if case["advanced"] else "simple", beam_width=case["width"], max_steps=case["steps"], predictor=pred)
         if case["advanced"]:
             kw["history_depth"] = case["history"]
+            if case.get("destination") is not None:
+                kw["destination_state"] = case["destination"]
         else:
             kw["return_path"] = case["return_path"]
             if case.get("ball_depth") is not None:
@@ -245,7 +286,8 @@ def replay(ctx, obj):
             res = ("err", type(ex).__name__, repr(ex)[:160])
         _, dfs = G.ref_bfs(gd, [case["start"]])
         unpruned = case["width"] > len(dfs) * G.n_gens(gd)
-        msg, _ = check_beam(gd, case["start"], res, dfs, unpruned, case["steps"], ic, case.get("ball_depth") is not None, case["return_path"])
+        gd_c = dict(gd, central=case["destination"]) if case.get("destination") is not None else gd
+        msg, _ = check_beam(gd_c, case["start"], res, dfs, unpruned, case["steps"], ic, case.get("ball_depth") is not None, case["return_path"])
         return msg
     run(ctx)
     return "; ".join(v["what"] for v in ctx.violations[:3]) or None
